@@ -8,6 +8,7 @@ import (
 	"time"
 
 	"github.com/anishathalye/porcupine"
+	"github.com/vbauerster/mpb/v8/decor"
 	"pgregory.net/rapid"
 	"verif/harness/engine"
 	"verif/harness/vstat"
@@ -75,6 +76,22 @@ func genC10(t *rapid.T) interface{} {
 	}
 	if incrOnly {
 		sc.Epilogue = "complete"
+	}
+	if rapid.IntRange(0, 3).Draw(t, "paralleladds") == 0 {
+		// two more bars, added by two goroutines at the same moment, whose decorators
+		// are built from one shared (read-only) width configuration
+		w, c := rapid.IntRange(0, 8).Draw(t, "sharedW"), rapid.SampledFrom([]int{decor.DSyncWidth, decor.DSyncSpace, decor.DSyncSpaceR, 0}).Draw(t, "sharedC")
+		n := len(sc.Bars)
+		for k := 0; k < 2; k++ {
+			sc.Bars = append(sc.Bars, engine.BarSpec{Total: 5, QueueAfter: -1, Filler: "tag",
+				Decors: []engine.DecorSpec{{Side: k, Texts: []string{"shared", "s"}, W: w, C: c, ViaAny: true}}})
+		}
+		at := 0
+		for at < len(sc.Steps) && sc.Steps[at].Op == "add" {
+			at++
+		}
+		st := engine.Step{Op: "add2", Bar: n, N: int64(n + 1)}
+		sc.Steps = append(sc.Steps[:at], append([]engine.Step{st}, sc.Steps[at:]...)...)
 	}
 	// getters right after Wait race with the frames of other containers? no: but
 	// reads after the bars have shut down while later frames are still drawn are
@@ -232,6 +249,11 @@ func runC10(ci interface{}) Result {
 		return r
 	}
 	r.Classes = append(append(r.Classes, "refresh:"+sc.Cfg.Refresh), featureClasses(sc)...)
+	for _, st := range sc.Steps {
+		if st.Op == "add2" {
+			r.Classes = append(r.Classes, "parallel-adds-shared-style")
+		}
+	}
 	if tr.CancelSeq != 0 {
 		// a cancelled container aborts its bars from the side at a moment of its own
 		// choosing: the sequential rules are silent about that. These histories
